@@ -31,8 +31,8 @@
 #include "sched.h"
 
 enum { MAXT = 16, MAXOBJ = 256 };
-enum OpKind { OP_NONE, OP_START, OP_LOCK, OP_TRYLOCK, OP_UNLOCK, OP_CWAIT, OP_CWAKE, OP_RELOCK, OP_SIGNAL, OP_BCAST, OP_JOIN, OP_YIELD, OP_ATOMIC, OP_EXIT };
-static const char* const opName[] = { "none", "start", "lock", "trylock", "unlock", "cwait", "cwake", "relock", "signal", "bcast", "join", "spawned", "atomic", "exit" };
+enum OpKind { OP_NONE, OP_START, OP_LOCK, OP_TRYLOCK, OP_UNLOCK, OP_CWAIT, OP_CWAKE, OP_RELOCK, OP_SIGNAL, OP_BCAST, OP_JOIN, OP_YIELD, OP_ATOMIC, OP_CONT, OP_EXIT };
+static const char* const opName[] = { "none", "start", "lock", "trylock", "unlock", "cwait", "cwake", "relock", "signal", "bcast", "join", "spawned", "atomic", "cont", "exit" };
 struct VMutex { void* addr; int owner; int count; bool recursive; bool live; };
 struct VCond { void* addr; bool live; int gen; };
 static int condGen = 0;
@@ -53,6 +53,7 @@ static long steps = 0, maxSteps = 100000;
 static int* prefix = 0; static int nprefix = 0; static int policy = 0; // 0 = non-preemptive (stay, else lowest id), 1 = random
 static int lastThread = 0, sameCount = 0;
 static long clockCalls = 0; static long tickMs = 0;
+static int splitMode = 0; // 1: the code that follows a synchronisation operation (plain accesses up to the next operation) is a step of its own
 
 static VMutex* M(void* a)
 {
@@ -133,6 +134,9 @@ static void out(const char* op, const void* obj, long long res)
 {
   char nb[64]; printf("O %s %s %lld\n", op, sched_name(obj, nb), res);
 }
+// split mode: after the effect of an operation the thread yields once more, so that other threads can run between the
+// operation and the plain accesses that follow it in program order
+static void post() { if(splitMode) { point(OP_CONT, 0); printf("O cont thread 0\n"); } }
 extern "C" {
 int nv_pthread_mutex_init(pthread_mutex_t* m, const pthread_mutexattr_t* a)
 {
@@ -147,19 +151,19 @@ int nv_pthread_mutex_destroy(pthread_mutex_t* m)
 }
 int nv_pthread_mutex_lock(pthread_mutex_t* m)
 {
-  pthread_mutex_lock(&G); point(OP_LOCK, m); VMutex* v = M(m); v->owner = self; v->count++; out("lock", m, 0); pthread_mutex_unlock(&G); return 0;
+  pthread_mutex_lock(&G); point(OP_LOCK, m); VMutex* v = M(m); v->owner = self; v->count++; out("lock", m, 0); post(); pthread_mutex_unlock(&G); return 0;
 }
 int nv_pthread_mutex_trylock(pthread_mutex_t* m)
 {
   pthread_mutex_lock(&G); point(OP_TRYLOCK, m); VMutex* v = M(m); int r;
   if(v->owner == -1 || (v->owner == self && v->recursive)) { v->owner = self; v->count++; r = 0; } else r = EBUSY;
-  out("trylock", m, r); pthread_mutex_unlock(&G); return r;
+  out("trylock", m, r); post(); pthread_mutex_unlock(&G); return r;
 }
 int nv_pthread_mutex_unlock(pthread_mutex_t* m)
 {
   pthread_mutex_lock(&G); point(OP_UNLOCK, m); VMutex* v = M(m); int r = 0;
   if(v->owner != self) r = EPERM; else if(--v->count == 0) v->owner = -1;
-  out("unlock", m, r); pthread_mutex_unlock(&G); return r;
+  out("unlock", m, r); post(); pthread_mutex_unlock(&G); return r;
 }
 int nv_pthread_cond_init(pthread_cond_t* c, const pthread_condattr_t*) { pthread_mutex_lock(&G); CV(c, true); pthread_mutex_unlock(&G); return 0; }
 int nv_pthread_cond_destroy(pthread_cond_t* c)
@@ -175,7 +179,7 @@ int nv_pthread_cond_wait(pthread_cond_t* c, pthread_mutex_t* m)
   pthread_mutex_lock(&G);
   point(OP_CWAIT, c, m); VMutex* v = M(m); int saved = v->count; v->count = 0; v->owner = -1; th[self].waitingOn = c; th[self].signalled = false; out("cwait", c, 0);
   point(OP_CWAKE, c, m); bool spurious = !th[self].signalled; if(spurious) --spuriousBudget; th[self].waitingOn = 0; out("cwake", c, spurious ? 1 : 0);
-  point(OP_RELOCK, m); v = M(m); v->owner = self; v->count = saved; out("relock", m, 0);
+  point(OP_RELOCK, m); v = M(m); v->owner = self; v->count = saved; out("relock", m, 0); post();
   pthread_mutex_unlock(&G); return 0;
 }
 int nv_pthread_cond_timedwait(pthread_cond_t*, pthread_mutex_t*, const struct timespec*) { printf("X timedwait-not-simulated\n"); fflush(stdout); _exit(7); }
@@ -183,7 +187,7 @@ int nv_pthread_cond_signal(pthread_cond_t* c)
 {
   pthread_mutex_lock(&G); point(OP_SIGNAL, c);
   for(int t = 0; t < nth; ++t) if(th[t].used && !th[t].finished && th[t].waitingOn == c && !th[t].signalled) { th[t].signalled = true; break; }
-  out("signal", c, 0); pthread_mutex_unlock(&G); return 0;
+  out("signal", c, 0); post(); pthread_mutex_unlock(&G); return 0;
 }
 int nv_pthread_cond_broadcast(pthread_cond_t* c)
 {
@@ -192,12 +196,12 @@ int nv_pthread_cond_broadcast(pthread_cond_t* c)
   VCond* v1 = CV(c, false);
   if(!v1 || v1->gen != g0) { char nb[64]; printf("X broadcast-on-destroyed-cond %s by=%d\n", sched_name(c, nb), self); }
   int n = 0; for(int t = 0; t < nth; ++t) if(th[t].used && !th[t].finished && th[t].waitingOn == c) { if(!th[t].signalled) ++n; th[t].signalled = true; }
-  out("bcast", c, n); pthread_mutex_unlock(&G); return 0;
+  out("bcast", c, n); post(); pthread_mutex_unlock(&G); return 0;
 }
 static void* tramp(void* p)
 {
   int id = (int)(long)p; self = id; sem_wait(&th[id].go);
-  pthread_mutex_lock(&G); th[id].pend = OP_NONE; printf("O start thread 0\n"); pthread_mutex_unlock(&G);
+  pthread_mutex_lock(&G); th[id].pend = OP_NONE; printf("O start thread 0\n"); post(); pthread_mutex_unlock(&G);
   void* r = th[id].fn(th[id].arg);
   pthread_mutex_lock(&G); th[id].ret = r; point(OP_EXIT, 0); th[id].finished = true; th[id].pend = OP_NONE; printf("O exit thread 0\n"); pass_baton(-1); pthread_mutex_unlock(&G);
   return r;
@@ -215,7 +219,7 @@ int nv_pthread_create(pthread_t* outh, const pthread_attr_t*, void*(*fn)(void*),
 }
 int nv_pthread_join(pthread_t h, void** ret)
 {
-  int id = (int)((long)h - 1000); pthread_mutex_lock(&G); point(OP_JOIN, 0, 0, id); if(ret) *ret = th[id].ret; printf("O join thread %d\n", id); pthread_mutex_unlock(&G);
+  int id = (int)((long)h - 1000); pthread_mutex_lock(&G); point(OP_JOIN, 0, 0, id); if(ret) *ret = th[id].ret; printf("O join thread %d\n", id); post(); pthread_mutex_unlock(&G);
   pthread_join(th[id].real, 0); return 0;
 }
 int nv_clock_gettime(clockid_t, struct timespec* ts)
@@ -231,14 +235,14 @@ void nv_yield(const char* kind, const volatile void* p)
 void nv_result(const volatile void* p, unsigned long long value)
 {
   pthread_mutex_lock(&G); char nb[64]; const char* n = sched_name((const void*)p, nb);
-  printf("O %s %s %lld\n", th[self].akind, n, sched_value((const void*)p, value)); pthread_mutex_unlock(&G);
+  printf("O %s %s %lld\n", th[self].akind, n, sched_value((const void*)p, value)); post(); pthread_mutex_unlock(&G);
 }
 }
-void sched_reset(unsigned long long seed, int pol, const int* pre, int npre, long maxsteps, int spurious, long tickms)
+void sched_reset(unsigned long long seed, int pol, const int* pre, int npre, long maxsteps, int spurious, long tickms, int split)
 {
   rs = seed * 0x2545F4914F6CDD1DULL + 0x9E3779B97F4A7C15ULL; for(int i = 0; i < 4; ++i) rnd();
   policy = pol; nprefix = npre; prefix = (int*)malloc(sizeof(int) * (npre + 1)); for(int i = 0; i < npre; ++i) prefix[i] = pre[i];
-  maxSteps = maxsteps; spuriousBudget = spurious; tickMs = tickms; clockCalls = 0; steps = 0; lastThread = 0; sameCount = 0;
+  splitMode = split; maxSteps = maxsteps; spuriousBudget = spurious; tickMs = tickms; clockCalls = 0; steps = 0; lastThread = 0; sameCount = 0;
   nmtx = 0; ncnd = 0; nth = 1; memset(th, 0, sizeof(th)); th[0].used = true; sem_init(&th[0].go, 0, 0); self = 0;
 }
 // main thread (t0) has finished its program: let the remaining threads run to the end
